@@ -154,8 +154,7 @@ theorem ln_of_nonpos {a : TwoFloat} (hv : a.Valid) (_hw : a.WF) (h : a.V ≤ 0) 
   have h2 : ROrd.isLe (base.impl_PartialOrd_f64_for_TwoFloat.partial_cmp a (f64lit 0x0000000000000000)) = true := by
     rw [f64lit_zero]
     exact (C06.le_f64_exact hv (WF_zero false) rfl).2 (by show a.V ≤ 0; exact h)
-  unfold TwoFloat.ln
-  rw [h1, h2]; rfl
+  exact LnCore.ln_go_succ_nonpos 7 a h1 h2
 
 /-! ## 3. arguments next to `±1` -/
 
